@@ -205,7 +205,8 @@ def plan(prop, tier):
         return fams
     own = {"C08": "merge", "C09": "concat", "C10": "combine", "C11": "flatten", "C12": "share"}
     if prop in own:
-        fams = [(n, c, r) for n, (c, r) in F.items() if c["fam"] == own[prop] and not n.endswith("_serr")]
+        fams = [(n, c, r) for n, (c, r) in F.items() if c["fam"] == own[prop] and not n.endswith("_serr")
+                and not n.startswith("compo_")]
         q = tier == "quick"
         if prop == "C08":
             fams.append(("merge2_d2", scen.with_bounds(scen.nary("merge", 2), "merge", maxData=2, maxTop=3 if q else 4,
